@@ -389,6 +389,7 @@ func CloneCert(c *certs.FinalityCertificate) *certs.FinalityCertificate {
 // CertBytes is the canonical (CBOR) form of a certificate.
 func CertBytes(c *certs.FinalityCertificate) []byte {
 	var buf bytes.Buffer
+	buf.Grow(512 + 240*c.ECChain.Len() + 96*len(c.PowerTableDelta))
 	if err := c.MarshalCBOR(&buf); err != nil {
 		panic(fmt.Sprintf("vstore: cannot encode certificate: %v", err))
 	}
